@@ -111,7 +111,12 @@ pub fn replay(a: &Args) {
             }));
             steps += 1;
             match res {
-                Ok((rr, _)) => root = rr,
+                Ok((rr, _)) => {
+                    root = rr;
+                    if let Some(e) = root.as_ref() {
+                        crate::util::probe_render(e);
+                    }
+                }
                 Err(_) => {
                     mismatches.push(json!({"kind": "api", "class": "panic", "ops": ops, "step": i}));
                     bad = true;
@@ -277,7 +282,12 @@ pub fn record(a: &Args) {
             }));
             steps += 1;
             match res {
-                Ok(rr) => root = rr,
+                Ok(rr) => {
+                    root = rr;
+                    if let Some(e) = root.as_ref() {
+                        crate::util::probe_render(e);
+                    }
+                }
                 Err(_) => {
                     if let Some(t) = trace.as_mut() {
                         t.line(&json!({"ev": "Panic", "op": op, "before": before}));
